@@ -193,9 +193,14 @@ def check_case(case):
         ws.append(np.asarray(out.w, float))
     decreased = False
     prev, prev_lbl = F0, "start"
-    for k, Fk in zip(fam["budgets"], Fs):
+    w_from = start_point(case)
+    for (k, Fk), wk in zip(zip(fam["budgets"], Fs), ws):
         if not leq(Fk, prev, scale):
-            wild = c01.wild_newton_step(case, None) if name in ("ProxNewton", "GroupProxNewton") else False
+            # KF-PN-WILD-STEP-ASCENT needs BOTH: the implementation takes an astronomically large step (probe on the
+            # code) AND reference maths predict one from the point the ascending step starts at (family A: the previous
+            # budget's output; family B: the start) -- otherwise an overshooting line search would hide behind it
+            wild = (c01.wild_newton_step(case, None) and c01.predicted_wild_step(case, w_from)) \
+                if name in ("ProxNewton", "GroupProxNewton") else False
             period = (fam["kind"] == "B" and k in (7, 13, 14)) or (fam["kind"] == "A" and s.get("max_epochs") in (7, 13, 14))
             viol.append(Viol(dict(sig, kind="objective-increase", vs=("start" if prev_lbl == "start" else "previous-budget"),
                                   at_extrapolation_budget=bool(period), wild_newton_step=wild),
@@ -205,6 +210,8 @@ def check_case(case):
         if Fk < prev - 1e-12 * (abs(prev) + scale):
             decreased = True
         prev, prev_lbl = Fk, f"{fam['knob']}={k}"
+        if fam["kind"] == "A":
+            w_from = wk
     # extrapolation differential
     crossed = False
     # only family B (outer budget 1): there the first budget at which the accelerated and the plain run differ ends
